@@ -366,7 +366,7 @@ def drive(mod, tier, seed, nproc=None):
         'excluded_configurations': tot['excluded'],
         'functions_encoded': meta.get('functions_encoded', []),
         'source_hashes': _src_hashes(),
-        'bounds': meta.get('bounds', {}).get(tier, meta.get('bounds')),
+        'bounds': meta['bounds'].get(tier) if isinstance(meta.get('bounds'), dict) else meta.get('bounds'),
         'outside_claim': meta.get('outside_claim', []),
         'stubs': meta.get('stubs', []),
         'samples': samples or [{'note': 'no solver obligation issued'}],
